@@ -887,10 +887,15 @@ def SSI_mpe(
         found = False
         for i in range(aggregated_poles.shape[1]):
             current_order_poles = aggregated_poles[:, i]
-            unique_poles = np.unique(current_order_poles[~np.isnan(current_order_poles)])
+            in_band_poles = current_order_poles[~np.isnan(current_order_poles)]
+            unique_poles = np.unique(in_band_poles)
 
-            if len(unique_poles) == len(freq_ref) and np.allclose(
-                unique_poles, freq_ref, rtol=rtol
+            # exactly one stable pole per requested frequency: two stable poles
+            # sharing the same frequency value are still two poles
+            if (
+                len(in_band_poles) == len(freq_ref)
+                and len(unique_poles) == len(freq_ref)
+                and np.allclose(unique_poles, freq_ref, rtol=rtol)
             ):
                 found = True
                 sel_freq.append(unique_poles)
